@@ -3,7 +3,10 @@ package sim
 import (
 	"context"
 	"fmt"
+	"crypto/md5"
+	"encoding/hex"
 	"sort"
+	"strconv"
 	"strings"
 	"time"
 
@@ -61,11 +64,22 @@ func condName(t string) string {
 	return strings.ReplaceAll(t, "-", "")
 }
 
-func intstrS(v *intstr.IntOrString) string {
+func intstrS(v *intstr.IntOrString) IntPct {
 	if v == nil {
-		return ""
+		return IntPct{}
 	}
-	return v.String()
+	if v.Type == intstr.Int {
+		return IntPct{V: int(v.IntVal), Set: true}
+	}
+	s := v.StrVal
+	if !strings.HasSuffix(s, "%") {
+		return IntPct{Set: true, Bad: true}
+	}
+	n, err := strconv.Atoi(strings.TrimSuffix(s, "%"))
+	if err != nil {
+		return IntPct{Set: true, Bad: true, Pct: true}
+	}
+	return IntPct{V: n, Pct: true, Set: true}
 }
 
 func durUnits(d *metav1.Duration) int {
@@ -183,8 +197,9 @@ func edsCondS(conds []edsv1.ExtendedDaemonSetCondition, t edsv1.ExtendedDaemonSe
 	return CondS{LTT: -1, LUT: -1}
 }
 
+// nodeOverrideHash is the harness' own version of the node-annotation hash: md5 over the sorted key=value list
+// of the resource annotations addressed to EDS ns/name ("" when there is none).
 func nodeOverrideHash(ns, name string, ann map[string]string) string {
-	// harness' own version of the node-annotation hash: the sorted key=value list of the resource annotations
 	prefix := fmt.Sprintf("resources.extendeddaemonset.datadoghq.com/%s.%s.", ns, name)
 	var kv []string
 	for k, v := range ann {
@@ -192,8 +207,15 @@ func nodeOverrideHash(ns, name string, ann map[string]string) string {
 			kv = append(kv, k+"="+v)
 		}
 	}
+	if len(kv) == 0 {
+		return ""
+	}
 	sort.Strings(kv)
-	return strings.Join(kv, ";")
+	h := md5.New()
+	for _, x := range kv {
+		h.Write([]byte(x))
+	}
+	return hex.EncodeToString(h.Sum(nil))
 }
 
 // Project computes the abstract state of the store.
@@ -345,7 +367,8 @@ func (c *Cluster) Project() State {
 			Hash: c.identOfHash(p.Annotations[edsv1.MD5ExtendedDaemonSetAnnotationKey]), Tol: stdTolerations(p),
 			Phase: string(p.Status.Phase), Ready: podReady(p), Term: p.DeletionTimestamp != nil, Sched: p.Spec.NodeName != "",
 			RestartAge: -1, StartAge: -1, Waiting: waitingClass(p), Age: ageUnits(p.CreationTimestamp, now), Foreign: c.foreign[key],
-			SetLabel: p.Labels[edsv1.ExtendedDaemonSetSettingNameLabelKey], NodeHash: "none", Owner: "none"}
+			SetLabel: p.Labels[edsv1.ExtendedDaemonSetSettingNameLabelKey], NodeHash: "ok", Owner: "none",
+			Born: int(p.CreationTimestamp.Unix()-c.startUnix) + c.VNow*int(Unit/time.Second)}
 		s.Pin, s.PinAll = pinInfo(p)
 		for _, o := range p.OwnerReferences {
 			switch o.Kind {
@@ -364,8 +387,11 @@ func (c *Cluster) Project() State {
 				s.Res = resClassOf(ct.Resources)
 			}
 		}
-		if h, ok := p.Annotations[edsv1.MD5NodeExtendedDaemonSetAnnotationKey]; ok && h != "" {
-			s.NodeHash = "set"
+		if n, ok := nodeByName[s.Node]; ok && s.EDS != "" {
+			want := nodeOverrideHash(p.Namespace, s.EDS, n.Annotations)
+			if p.Annotations[edsv1.MD5NodeExtendedDaemonSetAnnotationKey] != want {
+				s.NodeHash = "stale"
+			}
 		}
 		for _, cs := range p.Status.ContainerStatuses {
 			if int(cs.RestartCount) > s.Restarts {
